@@ -9,6 +9,8 @@ CONSTANTS
  EncMaxLen = 0
  MaxLen = 140000
  MaxOps = 2
+ TmpPaths = {"p", "q"}
+ QueryKinds = {}
  KeepHist = TRUE
 VIEW View
 ACTION_CONSTRAINT Emit
